@@ -183,9 +183,18 @@ func RunRepl(prompt string, opts ...Option) {
 		rootDir = wd
 	}
 
+	// os.OpenRoot, not os.DirFS: DirFS follows a symbolic link inside the
+	// directory wherever it points; a Root refuses every path that resolves
+	// outside its directory.
+	root, err := os.OpenRoot(rootDir)
+	if err != nil {
+		errlnf("Cannot open root directory: %v", err)
+		os.Exit(1)
+	}
+
 	envOpts := []lisp.Config{
 		lisp.WithReader(parser.NewReader()),
-		lisp.WithLibrary(&lisp.FSLibrary{FS: os.DirFS(rootDir)}),
+		lisp.WithLibrary(&lisp.FSLibrary{FS: root.FS()}),
 	}
 
 	if cfg.stderr != nil {
